@@ -542,7 +542,7 @@ def script_at(script, e):
     return toks[e - lo]
 
 
-def impl_search(script, max_iters, h_init, via_initialize=False):
+def impl_search(script, max_iters, h_init, via_initialize=False, reg_target=None):
     """Run the real search against a scripted profile. Returns ("ok", exponent, n_steps, extra) or
     ("err", None, n_steps, None)."""
     import mici
@@ -575,7 +575,10 @@ def impl_search(script, max_iters, h_init, via_initialize=False):
             return h_init + d if state.tag % 2 == 0 else h_init - d
 
     integ = Integ()
-    ad = mici.adapters.DualAveragingStepSizeAdapter(max_init_step_size_iters=max_iters)
+    # explicit regularisation target (incl. the falsy 0.0 / -0.0): `initialize` must store it unchanged
+    # (seed C17-3: `target or default`); None selects the documented default log(10 * init step size)
+    ad = mici.adapters.DualAveragingStepSizeAdapter(max_init_step_size_iters=max_iters,
+                                                    log_step_size_reg_target=reg_target)
     try:
         if via_initialize:
             tr = types.SimpleNamespace(integrator=integ, system=Sys())
@@ -622,7 +625,8 @@ def oracle_search(case):
     h_init = float("nan") if case["h_init_nan"] else case["h_init"]
     bad = []
     try:
-        r = _with_timeout(lambda: impl_search(script, max_iters, h_init, case.get("via_initialize", False)))
+        r = _with_timeout(lambda: impl_search(script, max_iters, h_init, case.get("via_initialize", False),
+                                                reg_target=case.get("reg_target")))
     except _Timeout:
         return ["search did not return"]
     except Exception as e:  # noqa: BLE001
@@ -639,7 +643,12 @@ def oracle_search(case):
                        f"{e - 1},{e},{e + 1} = {down},{here},{up}")
         if r[3] is not None:
             rt = r[3].get("log_step_size_reg_target")
-            if not common.close(rt, math.log(10 * 2.0 ** e), rtol=1e-12, atol=1e-12):
+            explicit = case.get("reg_target")
+            if explicit is not None:
+                if not (isinstance(rt, float) and rt == explicit):
+                    bad.append(f"log_step_size_reg_target in the adapter state is {rt!r} although "
+                               f"log_step_size_reg_target={explicit!r} was given explicitly")
+            elif not common.close(rt, math.log(10 * 2.0 ** e), rtol=1e-12, atol=1e-12):
                 bad.append(f"log_step_size_reg_target {rt!r} != log(10 * init step size 2^{e})")
             if r[3].get("iter") != 0 or r[3].get("smoothed_log_step_size") != 0.0 or r[3].get("adapt_stat_error") != 0.0:
                 bad.append(f"initial adapter state not zeroed: {r[3]}")
@@ -822,7 +831,8 @@ def run(ctx: common.Ctx):  # noqa: C901, PLR0912, PLR0915
         sc = rand_script()
         mi = int(rng.choice([0, 1, 2, 3, 5, 8, 12, 20, 40, 100]))
         case = {"script": sc, "max_iters": mi, "h_init": float(rng.integers(-8, 9)) / 2.0,
-                "h_init_nan": bool(rng.random() < 0.04), "via_initialize": i % 2 == 0}
+                "h_init_nan": bool(rng.random() < 0.04), "via_initialize": i % 2 == 0,
+                "reg_target": [None, 0.0, -0.0, 1.5, -2.25, None][i % 6] if i % 2 == 0 else None}
         toks = ",".join(t if t in ("E", "N", "I") else common.fstr(float(t)) for t in sc["tokens"])
         d = sc["default"]
         d = d if d in ("E", "N", "I") else common.fstr(float(d))
@@ -977,7 +987,7 @@ def run(ctx: common.Ctx):  # noqa: C901, PLR0912, PLR0915
             ctx.case({"search": common.stable_hash(case)}, nontrivial=hard or case["max_iters"] >= 3)
             try:
                 h_init = float("nan") if case["h_init_nan"] else case["h_init"]
-                r = _with_timeout(lambda c=case, h=h_init: impl_search(c["script"], c["max_iters"], h, c["via_initialize"]))
+                r = _with_timeout(lambda c=case, h=h_init: impl_search(c["script"], c["max_iters"], h, c["via_initialize"], reg_target=c.get("reg_target")))
             except Exception as e:  # noqa: BLE001
                 ctx.disagreement(f"search: implementation raised {type(e).__name__}: {e}", case)
                 check(ctx, "search", case)
